@@ -91,10 +91,10 @@ Definition pdelta (s : nstate) (x : err) : nstate :=
 Definition pert (s : nstate) (x : err) : nstate := sadd s 1 (pdelta s x).
 
 (** the linearised error-growth residual, one scalar component [pr] of the state at a time:
-      u |->  nav_rhs_pr (pert s (u x))  -  [P(s + u nav_rhs(s)) x]_pr
+      u |->  nav_rhs_pr (s + u P(s) x)  -  [P(s + u nav_rhs(s)) x]_pr        (s + u P(s) x = pert s (u x), lemma pert_scale)
     Its derivative at u = 0 is  (D nav_rhs(s) [P(s) x])_pr - ((D P(s)[nav_rhs s]) x)_pr  =  (P(s) x')_pr . *)
 Definition lin (g : rhs21) (pr : nstate -> R) (s : nstate) (m : imu) (x : err) (u : R) : R :=
-  app g (pert s (xscale u x)) m - pr (pdelta (sadd s u (nav_field s m)) x).
+  app g (sadd s u (pdelta s x)) m - pr (pdelta (sadd s u (nav_field s m)) x).
 
 (** sensitivity to the sensor inputs *)
 Definition linB (g : rhs21) (s : nstate) (m d : imu) (u : R) : R := app g s (iadd m u d).
@@ -148,28 +148,39 @@ Definition N80 s := - s_VE s * (1 + tphi s * tphi s) / (re s * rn s)
                     + s_VE s * tphi s * dRe_dphi (s_lat s) / (re s * re s * rn s).
 Definition N82 s := - s_VE s * tphi s / (re s * re s).
 
-(** x' = (F + N) x with F the GENERATED matrix (roll pitch heading are ignored by F) *)
-Definition errdyn0 (s : nstate) (roll pitch heading : R) (x : err) : R :=
-  (sysmat3d_F00 (s_lat s) (s_lon s) (s_alt s) (s_VN s) (s_VE s) (s_VD s) roll pitch heading + N00 s) * e0 x
+(** N x *)
+Definition negl0 (s : nstate) (x : err) : R := N00 s * e0 x + N02 s * e2 x.
+Definition negl1 (s : nstate) (x : err) : R := N10 s * e0 x + N11 s * e1 x + N12 s * e2 x.
+Definition negl2 (s : nstate) (x : err) : R := 0.
+Definition negl3 (s : nstate) (x : err) : R := N30 s * e0 x + N36 s * e6 x + N37 s * e7 x + N38 s * e8 x.
+Definition negl4 (s : nstate) (x : err) : R := N40 s * e0 x + N47 s * e7 x.
+Definition negl5 (s : nstate) (x : err) : R := N50 s * e0 x + N56 s * e6 x + N57 s * e7 x + N58 s * e8 x.
+Definition negl6 (s : nstate) (x : err) : R := N60 s * e0 x + N62 s * e2 x.
+Definition negl7 (s : nstate) (x : err) : R := N70 s * e0 x + N72 s * e2 x.
+Definition negl8 (s : nstate) (x : err) : R := N80 s * e0 x + N82 s * e2 x.
+
+(** the model alone: F x with F the GENERATED matrix (roll pitch heading are ignored by F) *)
+Definition model0 (s : nstate) (roll pitch heading : R) (x : err) : R :=
+  sysmat3d_F00 (s_lat s) (s_lon s) (s_alt s) (s_VN s) (s_VE s) (s_VD s) roll pitch heading * e0 x
   + sysmat3d_F01 (s_lat s) (s_lon s) (s_alt s) (s_VN s) (s_VE s) (s_VD s) roll pitch heading * e1 x
-  + (sysmat3d_F02 (s_lat s) (s_lon s) (s_alt s) (s_VN s) (s_VE s) (s_VD s) roll pitch heading + N02 s) * e2 x
+  + sysmat3d_F02 (s_lat s) (s_lon s) (s_alt s) (s_VN s) (s_VE s) (s_VD s) roll pitch heading * e2 x
   + sysmat3d_F03 (s_lat s) (s_lon s) (s_alt s) (s_VN s) (s_VE s) (s_VD s) roll pitch heading * e3 x
   + sysmat3d_F04 (s_lat s) (s_lon s) (s_alt s) (s_VN s) (s_VE s) (s_VD s) roll pitch heading * e4 x
   + sysmat3d_F05 (s_lat s) (s_lon s) (s_alt s) (s_VN s) (s_VE s) (s_VD s) roll pitch heading * e5 x
   + sysmat3d_F06 (s_lat s) (s_lon s) (s_alt s) (s_VN s) (s_VE s) (s_VD s) roll pitch heading * e6 x
   + sysmat3d_F07 (s_lat s) (s_lon s) (s_alt s) (s_VN s) (s_VE s) (s_VD s) roll pitch heading * e7 x
   + sysmat3d_F08 (s_lat s) (s_lon s) (s_alt s) (s_VN s) (s_VE s) (s_VD s) roll pitch heading * e8 x.
-Definition errdyn1 (s : nstate) (roll pitch heading : R) (x : err) : R :=
-  (sysmat3d_F10 (s_lat s) (s_lon s) (s_alt s) (s_VN s) (s_VE s) (s_VD s) roll pitch heading + N10 s) * e0 x
-  + (sysmat3d_F11 (s_lat s) (s_lon s) (s_alt s) (s_VN s) (s_VE s) (s_VD s) roll pitch heading + N11 s) * e1 x
-  + (sysmat3d_F12 (s_lat s) (s_lon s) (s_alt s) (s_VN s) (s_VE s) (s_VD s) roll pitch heading + N12 s) * e2 x
+Definition model1 (s : nstate) (roll pitch heading : R) (x : err) : R :=
+  sysmat3d_F10 (s_lat s) (s_lon s) (s_alt s) (s_VN s) (s_VE s) (s_VD s) roll pitch heading * e0 x
+  + sysmat3d_F11 (s_lat s) (s_lon s) (s_alt s) (s_VN s) (s_VE s) (s_VD s) roll pitch heading * e1 x
+  + sysmat3d_F12 (s_lat s) (s_lon s) (s_alt s) (s_VN s) (s_VE s) (s_VD s) roll pitch heading * e2 x
   + sysmat3d_F13 (s_lat s) (s_lon s) (s_alt s) (s_VN s) (s_VE s) (s_VD s) roll pitch heading * e3 x
   + sysmat3d_F14 (s_lat s) (s_lon s) (s_alt s) (s_VN s) (s_VE s) (s_VD s) roll pitch heading * e4 x
   + sysmat3d_F15 (s_lat s) (s_lon s) (s_alt s) (s_VN s) (s_VE s) (s_VD s) roll pitch heading * e5 x
   + sysmat3d_F16 (s_lat s) (s_lon s) (s_alt s) (s_VN s) (s_VE s) (s_VD s) roll pitch heading * e6 x
   + sysmat3d_F17 (s_lat s) (s_lon s) (s_alt s) (s_VN s) (s_VE s) (s_VD s) roll pitch heading * e7 x
   + sysmat3d_F18 (s_lat s) (s_lon s) (s_alt s) (s_VN s) (s_VE s) (s_VD s) roll pitch heading * e8 x.
-Definition errdyn2 (s : nstate) (roll pitch heading : R) (x : err) : R :=
+Definition model2 (s : nstate) (roll pitch heading : R) (x : err) : R :=
   sysmat3d_F20 (s_lat s) (s_lon s) (s_alt s) (s_VN s) (s_VE s) (s_VD s) roll pitch heading * e0 x
   + sysmat3d_F21 (s_lat s) (s_lon s) (s_alt s) (s_VN s) (s_VE s) (s_VD s) roll pitch heading * e1 x
   + sysmat3d_F22 (s_lat s) (s_lon s) (s_alt s) (s_VN s) (s_VE s) (s_VD s) roll pitch heading * e2 x
@@ -179,66 +190,86 @@ Definition errdyn2 (s : nstate) (roll pitch heading : R) (x : err) : R :=
   + sysmat3d_F26 (s_lat s) (s_lon s) (s_alt s) (s_VN s) (s_VE s) (s_VD s) roll pitch heading * e6 x
   + sysmat3d_F27 (s_lat s) (s_lon s) (s_alt s) (s_VN s) (s_VE s) (s_VD s) roll pitch heading * e7 x
   + sysmat3d_F28 (s_lat s) (s_lon s) (s_alt s) (s_VN s) (s_VE s) (s_VD s) roll pitch heading * e8 x.
-Definition errdyn3 (s : nstate) (roll pitch heading : R) (x : err) : R :=
-  (sysmat3d_F30 (s_lat s) (s_lon s) (s_alt s) (s_VN s) (s_VE s) (s_VD s) roll pitch heading + N30 s) * e0 x
+Definition model3 (s : nstate) (roll pitch heading : R) (x : err) : R :=
+  sysmat3d_F30 (s_lat s) (s_lon s) (s_alt s) (s_VN s) (s_VE s) (s_VD s) roll pitch heading * e0 x
   + sysmat3d_F31 (s_lat s) (s_lon s) (s_alt s) (s_VN s) (s_VE s) (s_VD s) roll pitch heading * e1 x
   + sysmat3d_F32 (s_lat s) (s_lon s) (s_alt s) (s_VN s) (s_VE s) (s_VD s) roll pitch heading * e2 x
   + sysmat3d_F33 (s_lat s) (s_lon s) (s_alt s) (s_VN s) (s_VE s) (s_VD s) roll pitch heading * e3 x
   + sysmat3d_F34 (s_lat s) (s_lon s) (s_alt s) (s_VN s) (s_VE s) (s_VD s) roll pitch heading * e4 x
   + sysmat3d_F35 (s_lat s) (s_lon s) (s_alt s) (s_VN s) (s_VE s) (s_VD s) roll pitch heading * e5 x
-  + (sysmat3d_F36 (s_lat s) (s_lon s) (s_alt s) (s_VN s) (s_VE s) (s_VD s) roll pitch heading + N36 s) * e6 x
-  + (sysmat3d_F37 (s_lat s) (s_lon s) (s_alt s) (s_VN s) (s_VE s) (s_VD s) roll pitch heading + N37 s) * e7 x
-  + (sysmat3d_F38 (s_lat s) (s_lon s) (s_alt s) (s_VN s) (s_VE s) (s_VD s) roll pitch heading + N38 s) * e8 x.
-Definition errdyn4 (s : nstate) (roll pitch heading : R) (x : err) : R :=
-  (sysmat3d_F40 (s_lat s) (s_lon s) (s_alt s) (s_VN s) (s_VE s) (s_VD s) roll pitch heading + N40 s) * e0 x
+  + sysmat3d_F36 (s_lat s) (s_lon s) (s_alt s) (s_VN s) (s_VE s) (s_VD s) roll pitch heading * e6 x
+  + sysmat3d_F37 (s_lat s) (s_lon s) (s_alt s) (s_VN s) (s_VE s) (s_VD s) roll pitch heading * e7 x
+  + sysmat3d_F38 (s_lat s) (s_lon s) (s_alt s) (s_VN s) (s_VE s) (s_VD s) roll pitch heading * e8 x.
+Definition model4 (s : nstate) (roll pitch heading : R) (x : err) : R :=
+  sysmat3d_F40 (s_lat s) (s_lon s) (s_alt s) (s_VN s) (s_VE s) (s_VD s) roll pitch heading * e0 x
   + sysmat3d_F41 (s_lat s) (s_lon s) (s_alt s) (s_VN s) (s_VE s) (s_VD s) roll pitch heading * e1 x
   + sysmat3d_F42 (s_lat s) (s_lon s) (s_alt s) (s_VN s) (s_VE s) (s_VD s) roll pitch heading * e2 x
   + sysmat3d_F43 (s_lat s) (s_lon s) (s_alt s) (s_VN s) (s_VE s) (s_VD s) roll pitch heading * e3 x
   + sysmat3d_F44 (s_lat s) (s_lon s) (s_alt s) (s_VN s) (s_VE s) (s_VD s) roll pitch heading * e4 x
   + sysmat3d_F45 (s_lat s) (s_lon s) (s_alt s) (s_VN s) (s_VE s) (s_VD s) roll pitch heading * e5 x
   + sysmat3d_F46 (s_lat s) (s_lon s) (s_alt s) (s_VN s) (s_VE s) (s_VD s) roll pitch heading * e6 x
-  + (sysmat3d_F47 (s_lat s) (s_lon s) (s_alt s) (s_VN s) (s_VE s) (s_VD s) roll pitch heading + N47 s) * e7 x
+  + sysmat3d_F47 (s_lat s) (s_lon s) (s_alt s) (s_VN s) (s_VE s) (s_VD s) roll pitch heading * e7 x
   + sysmat3d_F48 (s_lat s) (s_lon s) (s_alt s) (s_VN s) (s_VE s) (s_VD s) roll pitch heading * e8 x.
-Definition errdyn5 (s : nstate) (roll pitch heading : R) (x : err) : R :=
-  (sysmat3d_F50 (s_lat s) (s_lon s) (s_alt s) (s_VN s) (s_VE s) (s_VD s) roll pitch heading + N50 s) * e0 x
+Definition model5 (s : nstate) (roll pitch heading : R) (x : err) : R :=
+  sysmat3d_F50 (s_lat s) (s_lon s) (s_alt s) (s_VN s) (s_VE s) (s_VD s) roll pitch heading * e0 x
   + sysmat3d_F51 (s_lat s) (s_lon s) (s_alt s) (s_VN s) (s_VE s) (s_VD s) roll pitch heading * e1 x
   + sysmat3d_F52 (s_lat s) (s_lon s) (s_alt s) (s_VN s) (s_VE s) (s_VD s) roll pitch heading * e2 x
   + sysmat3d_F53 (s_lat s) (s_lon s) (s_alt s) (s_VN s) (s_VE s) (s_VD s) roll pitch heading * e3 x
   + sysmat3d_F54 (s_lat s) (s_lon s) (s_alt s) (s_VN s) (s_VE s) (s_VD s) roll pitch heading * e4 x
   + sysmat3d_F55 (s_lat s) (s_lon s) (s_alt s) (s_VN s) (s_VE s) (s_VD s) roll pitch heading * e5 x
-  + (sysmat3d_F56 (s_lat s) (s_lon s) (s_alt s) (s_VN s) (s_VE s) (s_VD s) roll pitch heading + N56 s) * e6 x
-  + (sysmat3d_F57 (s_lat s) (s_lon s) (s_alt s) (s_VN s) (s_VE s) (s_VD s) roll pitch heading + N57 s) * e7 x
-  + (sysmat3d_F58 (s_lat s) (s_lon s) (s_alt s) (s_VN s) (s_VE s) (s_VD s) roll pitch heading + N58 s) * e8 x.
-Definition errdyn6 (s : nstate) (roll pitch heading : R) (x : err) : R :=
-  (sysmat3d_F60 (s_lat s) (s_lon s) (s_alt s) (s_VN s) (s_VE s) (s_VD s) roll pitch heading + N60 s) * e0 x
+  + sysmat3d_F56 (s_lat s) (s_lon s) (s_alt s) (s_VN s) (s_VE s) (s_VD s) roll pitch heading * e6 x
+  + sysmat3d_F57 (s_lat s) (s_lon s) (s_alt s) (s_VN s) (s_VE s) (s_VD s) roll pitch heading * e7 x
+  + sysmat3d_F58 (s_lat s) (s_lon s) (s_alt s) (s_VN s) (s_VE s) (s_VD s) roll pitch heading * e8 x.
+Definition model6 (s : nstate) (roll pitch heading : R) (x : err) : R :=
+  sysmat3d_F60 (s_lat s) (s_lon s) (s_alt s) (s_VN s) (s_VE s) (s_VD s) roll pitch heading * e0 x
   + sysmat3d_F61 (s_lat s) (s_lon s) (s_alt s) (s_VN s) (s_VE s) (s_VD s) roll pitch heading * e1 x
-  + (sysmat3d_F62 (s_lat s) (s_lon s) (s_alt s) (s_VN s) (s_VE s) (s_VD s) roll pitch heading + N62 s) * e2 x
+  + sysmat3d_F62 (s_lat s) (s_lon s) (s_alt s) (s_VN s) (s_VE s) (s_VD s) roll pitch heading * e2 x
   + sysmat3d_F63 (s_lat s) (s_lon s) (s_alt s) (s_VN s) (s_VE s) (s_VD s) roll pitch heading * e3 x
   + sysmat3d_F64 (s_lat s) (s_lon s) (s_alt s) (s_VN s) (s_VE s) (s_VD s) roll pitch heading * e4 x
   + sysmat3d_F65 (s_lat s) (s_lon s) (s_alt s) (s_VN s) (s_VE s) (s_VD s) roll pitch heading * e5 x
   + sysmat3d_F66 (s_lat s) (s_lon s) (s_alt s) (s_VN s) (s_VE s) (s_VD s) roll pitch heading * e6 x
   + sysmat3d_F67 (s_lat s) (s_lon s) (s_alt s) (s_VN s) (s_VE s) (s_VD s) roll pitch heading * e7 x
   + sysmat3d_F68 (s_lat s) (s_lon s) (s_alt s) (s_VN s) (s_VE s) (s_VD s) roll pitch heading * e8 x.
-Definition errdyn7 (s : nstate) (roll pitch heading : R) (x : err) : R :=
-  (sysmat3d_F70 (s_lat s) (s_lon s) (s_alt s) (s_VN s) (s_VE s) (s_VD s) roll pitch heading + N70 s) * e0 x
+Definition model7 (s : nstate) (roll pitch heading : R) (x : err) : R :=
+  sysmat3d_F70 (s_lat s) (s_lon s) (s_alt s) (s_VN s) (s_VE s) (s_VD s) roll pitch heading * e0 x
   + sysmat3d_F71 (s_lat s) (s_lon s) (s_alt s) (s_VN s) (s_VE s) (s_VD s) roll pitch heading * e1 x
-  + (sysmat3d_F72 (s_lat s) (s_lon s) (s_alt s) (s_VN s) (s_VE s) (s_VD s) roll pitch heading + N72 s) * e2 x
+  + sysmat3d_F72 (s_lat s) (s_lon s) (s_alt s) (s_VN s) (s_VE s) (s_VD s) roll pitch heading * e2 x
   + sysmat3d_F73 (s_lat s) (s_lon s) (s_alt s) (s_VN s) (s_VE s) (s_VD s) roll pitch heading * e3 x
   + sysmat3d_F74 (s_lat s) (s_lon s) (s_alt s) (s_VN s) (s_VE s) (s_VD s) roll pitch heading * e4 x
   + sysmat3d_F75 (s_lat s) (s_lon s) (s_alt s) (s_VN s) (s_VE s) (s_VD s) roll pitch heading * e5 x
   + sysmat3d_F76 (s_lat s) (s_lon s) (s_alt s) (s_VN s) (s_VE s) (s_VD s) roll pitch heading * e6 x
   + sysmat3d_F77 (s_lat s) (s_lon s) (s_alt s) (s_VN s) (s_VE s) (s_VD s) roll pitch heading * e7 x
   + sysmat3d_F78 (s_lat s) (s_lon s) (s_alt s) (s_VN s) (s_VE s) (s_VD s) roll pitch heading * e8 x.
-Definition errdyn8 (s : nstate) (roll pitch heading : R) (x : err) : R :=
-  (sysmat3d_F80 (s_lat s) (s_lon s) (s_alt s) (s_VN s) (s_VE s) (s_VD s) roll pitch heading + N80 s) * e0 x
+Definition model8 (s : nstate) (roll pitch heading : R) (x : err) : R :=
+  sysmat3d_F80 (s_lat s) (s_lon s) (s_alt s) (s_VN s) (s_VE s) (s_VD s) roll pitch heading * e0 x
   + sysmat3d_F81 (s_lat s) (s_lon s) (s_alt s) (s_VN s) (s_VE s) (s_VD s) roll pitch heading * e1 x
-  + (sysmat3d_F82 (s_lat s) (s_lon s) (s_alt s) (s_VN s) (s_VE s) (s_VD s) roll pitch heading + N82 s) * e2 x
+  + sysmat3d_F82 (s_lat s) (s_lon s) (s_alt s) (s_VN s) (s_VE s) (s_VD s) roll pitch heading * e2 x
   + sysmat3d_F83 (s_lat s) (s_lon s) (s_alt s) (s_VN s) (s_VE s) (s_VD s) roll pitch heading * e3 x
   + sysmat3d_F84 (s_lat s) (s_lon s) (s_alt s) (s_VN s) (s_VE s) (s_VD s) roll pitch heading * e4 x
   + sysmat3d_F85 (s_lat s) (s_lon s) (s_alt s) (s_VN s) (s_VE s) (s_VD s) roll pitch heading * e5 x
   + sysmat3d_F86 (s_lat s) (s_lon s) (s_alt s) (s_VN s) (s_VE s) (s_VD s) roll pitch heading * e6 x
   + sysmat3d_F87 (s_lat s) (s_lon s) (s_alt s) (s_VN s) (s_VE s) (s_VD s) roll pitch heading * e7 x
   + sysmat3d_F88 (s_lat s) (s_lon s) (s_alt s) (s_VN s) (s_VE s) (s_VD s) roll pitch heading * e8 x.
+
+(** x' = (F + N) x *)
+Definition errdyn0 (s : nstate) (roll pitch heading : R) (x : err) : R :=
+  model0 s roll pitch heading x + negl0 s x.
+Definition errdyn1 (s : nstate) (roll pitch heading : R) (x : err) : R :=
+  model1 s roll pitch heading x + negl1 s x.
+Definition errdyn2 (s : nstate) (roll pitch heading : R) (x : err) : R :=
+  model2 s roll pitch heading x + negl2 s x.
+Definition errdyn3 (s : nstate) (roll pitch heading : R) (x : err) : R :=
+  model3 s roll pitch heading x + negl3 s x.
+Definition errdyn4 (s : nstate) (roll pitch heading : R) (x : err) : R :=
+  model4 s roll pitch heading x + negl4 s x.
+Definition errdyn5 (s : nstate) (roll pitch heading : R) (x : err) : R :=
+  model5 s roll pitch heading x + negl5 s x.
+Definition errdyn6 (s : nstate) (roll pitch heading : R) (x : err) : R :=
+  model6 s roll pitch heading x + negl6 s x.
+Definition errdyn7 (s : nstate) (roll pitch heading : R) (x : err) : R :=
+  model7 s roll pitch heading x + negl7 s x.
+Definition errdyn8 (s : nstate) (roll pitch heading : R) (x : err) : R :=
+  model8 s roll pitch heading x + negl8 s x.
 Definition errdyn (s : nstate) (roll pitch heading : R) (x : err) : err :=
   mkX (errdyn0 s roll pitch heading x) (errdyn1 s roll pitch heading x) (errdyn2 s roll pitch heading x) (errdyn3 s roll pitch heading x) (errdyn4 s roll pitch heading x) (errdyn5 s roll pitch heading x) (errdyn6 s roll pitch heading x) (errdyn7 s roll pitch heading x) (errdyn8 s roll pitch heading x).
 
@@ -332,8 +363,8 @@ Ltac unf_nav :=
 Ltac unf_chart :=
   unfold lin, linB, pert, nav_field, app, pdelta, sadd, iadd, xscale;
   cbn [s_lat s_lon s_alt s_VN s_VE s_VD s_C00 s_C01 s_C02 s_C10 s_C11 s_C12 s_C20 s_C21 s_C22
-       i_w0 i_w1 i_w2 i_f0 i_f1 i_f2 e0 e1 e2 e3 e4 e5 e6 e7 e8];
-  unfold pd_lat, pd_lon, pd_alt, pd_v0, pd_v1, pd_v2.
+       i_w0 i_w1 i_w2 i_f0 i_f1 i_f2 e0 e1 e2 e3 e4 e5 e6 e7 e8].
+Ltac unf_pd := unfold pd_lat, pd_lon, pd_alt, pd_v0, pd_v1, pd_v2.
 
 Ltac unf_sens :=
   unfold sens, sens0, sens1, sens2, sens3, sens4, sens5, sens6, sens7, sens8;
@@ -354,7 +385,7 @@ Ltac b_tac :=
   destruct m as [w0 w1 w2 f0 f1 f2]; destruct d as [dw0 dw1 dw2 df0 df1 df2];
   unfold att_is in Hatt; cbn [s_C00 s_C01 s_C02 s_C10 s_C11 s_C12 s_C20 s_C21 s_C22] in Hatt;
   destruct Hatt as (H00 & H01 & H02 & H10 & H11 & H12 & H20 & H21 & H22);
-  unf_chart; unf_nav; auto_derive; [exact I|];
+  unf_chart; unf_pd; unf_nav; auto_derive; [exact I|];
   unf_sens; cbn [s_lat s_lon s_alt s_VN s_VE s_VD];
   rewrite ?H00, ?H01, ?H02, ?H10, ?H11, ?H12, ?H20, ?H21, ?H22; unf_rph; unfold Rdiv;
   pose proof (sc1 (roll * (PI * / 180))) as Hr; pose proof (sc1 (pitch * (PI * / 180))) as Hp;
@@ -411,3 +442,292 @@ Proof. b_tac. Qed.
 Lemma B_C22 : forall s roll pitch heading m d, att_is s roll pitch heading ->
   is_derive (linB nav_rhs_C22 s m d) 0 (s_C22 (pdelta s (sens s roll pitch heading d))).
 Proof. b_tac. Qed.
+
+(** * 5. Geometry: positivity and derivatives of the radii and of normal gravity *)
+
+Lemma W2l_pos lat : 0 < W2l lat.
+Proof. unfold W2l, W2. apply W_pos. Qed.
+Lemma W2l_le1 lat : W2l lat <= 1.
+Proof. unfold W2l, W2, E2_. pose proof (sin2_le1 (lat * d2r)).
+  assert (0 <= sin (lat * d2r) * sin (lat * d2r)) by nra. nra. Qed.
+
+Lemma nav_Rn_big lat : 6000000 <= nav_Rn lat.
+Proof.
+  unfold nav_Rn, R_meridian. fold (W2l lat).
+  pose proof (W2l_pos lat) as Hx. pose proof (W2l_le1 lat) as Hx1.
+  set (q := sqrt (W2l lat)).
+  assert (Hq : 0 < q) by (apply sqrt_lt_R0; assumption).
+  assert (Hqq : q * q = W2l lat) by (apply sqrt_sqrt; lra).
+  assert (q <= 1) by nra.
+  rewrite <- Hqq.
+  apply Rmult_le_reg_r with (q * q * q); [nra|].
+  replace (A_ * (1 - E2_) / (q * q * q) * (q * q * q)) with (A_ * (1 - E2_)) by (field; lra).
+  assert (q * q * q <= 1) by nra. unfold A_, E2_. nra.
+Qed.
+Lemma nav_Re_big lat : 6000000 <= nav_Re lat.
+Proof.
+  unfold nav_Re, R_transverse. fold (W2l lat).
+  pose proof (W2l_pos lat) as Hx. pose proof (W2l_le1 lat) as Hx1.
+  set (q := sqrt (W2l lat)).
+  assert (Hq : 0 < q) by (apply sqrt_lt_R0; assumption).
+  assert (Hqq : q * q = W2l lat) by (apply sqrt_sqrt; lra).
+  assert (q <= 1) by nra.
+  assert (A_ <= A_ / q).
+  { apply Rmult_le_reg_r with q; [lra|]. replace (A_ / q * q) with A_ by (field; lra). unfold A_. nra. }
+  unfold A_ in *. lra.
+Qed.
+Lemma rn_pos lat alt : -1000000 <= alt -> 0 < nav_Rn lat + alt.
+Proof. pose proof (nav_Rn_big lat). lra. Qed.
+Lemma re_pos lat alt : -1000000 <= alt -> 0 < nav_Re lat + alt.
+Proof. pose proof (nav_Re_big lat). lra. Qed.
+
+Ltac geo_side := unfold Rminus in *; repeat split; auto; try (apply Rgt_not_eq; assumption);
+  try (apply Rgt_not_eq, Rmult_lt_0_compat; assumption).
+Ltac geo_main phi :=
+  unfold Rminus in *;
+  set (q := sqrt (1 + - (E2_ * (sin phi * sin phi)))) in *;
+  assert (Hqq : q * q = 1 + - (E2_ * (sin phi * sin phi))) by (apply sqrt_sqrt; lra);
+  assert (Hq0 : q <> 0) by lra;
+  rewrite <- Hqq; field_simplify_eq; [ring [Hqq] | try lra; repeat split; lra].
+
+Lemma nav_Rn_derive (lat : R) : is_derive nav_Rn lat (d2r * dRn_dphi lat).
+Proof.
+  unfold nav_Rn, R_meridian, W2, dRn_dphi, W2l, W2.
+  pose proof (W_pos (lat * d2r)) as HW.
+  assert (HQ : 0 < sqrt (1 - E2_ * (sin (lat * d2r) * sin (lat * d2r)))) by (apply sqrt_lt_R0; exact HW).
+  auto_derive; [geo_side|]. geo_main (lat * d2r).
+Qed.
+Lemma nav_Re_derive (lat : R) : is_derive nav_Re lat (d2r * dRe_dphi lat).
+Proof.
+  unfold nav_Re, R_transverse, W2, dRe_dphi, W2l, W2.
+  pose proof (W_pos (lat * d2r)) as HW.
+  assert (HQ : 0 < sqrt (1 - E2_ * (sin (lat * d2r) * sin (lat * d2r)))) by (apply sqrt_lt_R0; exact HW).
+  auto_derive; [geo_side|]. geo_main (lat * d2r).
+Qed.
+Lemma g0_derive (phi : R) : is_derive g0 phi (dg0 phi).
+Proof.
+  unfold g0, dg0.
+  pose proof (W_pos phi) as HW.
+  assert (HQ : 0 < sqrt (1 - E2_ * (sin phi * sin phi))) by (apply sqrt_lt_R0; exact HW).
+  auto_derive; [geo_side|]. geo_main phi.
+Qed.
+Lemma D_Rn (lat : R) : Derive (fun x : R => nav_Rn x) lat = d2r * dRn_dphi lat.
+Proof. apply is_derive_unique, nav_Rn_derive. Qed.
+Lemma D_Re (lat : R) : Derive (fun x : R => nav_Re x) lat = d2r * dRe_dphi lat.
+Proof. apply is_derive_unique, nav_Re_derive. Qed.
+Lemma D_g0 (phi : R) : Derive (fun x : R => g0 x) phi = dg0 phi.
+Proof. apply is_derive_unique, g0_derive. Qed.
+Lemma ng_split phi h : normal_gravity phi h = g0 phi * (1 - 2 * h / A_).
+Proof. reflexivity. Qed.
+
+(** * 6. The generated F in the vocabulary of the specification
+
+    F[DR,DV] = I, F[DR,PHI] = [v x];  F[DV,DV] = -[(2 Omega + rho) x], F[DV,PHI] = -[g x], F[DV3,DR3] = 2 g0 / a;
+    F[PHI,DR] = [Omega x] R, F[PHI,DV] = R, F[PHI,PHI] = -[(Omega + rho) x] + R [v x],
+    R = curvature matrix ((0, 1/re, 0), (-1/rn, 0, 0), (0, -tan(lat)/re, 0)). *)
+Definition corN s := nav_cor_N (s_lat s) (s_alt s) (s_VN s) (s_VE s).
+Definition corE s := nav_cor_E (s_lat s) (s_alt s) (s_VN s) (s_VE s).
+Definition corD s := nav_cor_D (s_lat s) (s_alt s) (s_VN s) (s_VE s).
+Definition omN s := nav_om_N (s_lat s) (s_alt s) (s_VN s) (s_VE s).
+Definition omE s := nav_om_E (s_lat s) (s_alt s) (s_VN s) (s_VE s).
+Definition omD s := nav_om_D (s_lat s) (s_alt s) (s_VN s) (s_VE s).
+Definition OmN s := nav_Omega_N (s_lat s).
+Definition OmD s := nav_Omega_D (s_lat s).
+Definition grav s := normal_gravity (s_lat s * d2r) (s_alt s).
+
+Definition sm0 s x := e3 x - s_VD s * e7 x + s_VE s * e8 x.
+Definition sm1 s x := e4 x + s_VD s * e6 x - s_VN s * e8 x.
+Definition sm2 s x := e5 x - s_VE s * e6 x + s_VN s * e7 x.
+Definition sm3 s x := corD s * e4 x - corE s * e5 x + grav s * e7 x.
+Definition sm4 s x := - corD s * e3 x + corN s * e5 x - grav s * e6 x.
+Definition sm5 s x := 2 * g0 (s_lat s * d2r) / A_ * e2 x + corE s * e3 x - corN s * e4 x.
+Definition sm6 s x := OmD s / rn s * e0 x + e4 x / re s + s_VD s / re s * e6 x + omD s * e7 x
+                      + (- omE s - s_VN s / re s) * e8 x.
+Definition sm7 s x := (OmD s / re s + OmN s * tphi s / re s) * e1 x - e3 x / rn s - omD s * e6 x
+                      + s_VD s / rn s * e7 x + (omN s - s_VE s / rn s) * e8 x.
+Definition sm8 s x := - OmN s / rn s * e0 x - tphi s / re s * e4 x + (omE s - tphi s * s_VD s / re s) * e6 x
+                      - omN s * e7 x + tphi s * s_VN s / re s * e8 x.
+
+Ltac to_prims :=
+  unfold corN, corE, corD, omN, omE, omD, OmN, OmD, grav, rn, re, sphi, cphi, tphi in *;
+  cbn [s_lat s_lon s_alt s_VN s_VE s_VD] in *;
+  unfold nav_cor_N, nav_cor_E, nav_cor_D, nav_om_N, nav_om_E, nav_om_D,
+    nav_rho_N, nav_rho_E, nav_rho_D, nav_Omega_N, nav_Omega_E, nav_Omega_D, normal_gravity in *;
+  unfold nav_Rn, nav_Re, R_meridian, R_transverse, dRn_dphi, dRe_dphi, W2l, W2, g0, dg0, tan in *;
+  unfold A_, E2_, RATE_, GE_, FG_, d2r, r2d in *.
+
+Ltac with_q lat :=
+  set (phi := lat * (PI / 180)) in *;
+  pose proof (W_pos' phi) as HW;
+  set (q := sqrt (1 - 66943799901413 / 10000000000000000 * (sin phi * sin phi))) in *;
+  assert (Hqq : q * q = 1 - 66943799901413 / 10000000000000000 * (sin phi * sin phi)) by (apply sqrtW_sq);
+  assert (Hq : 0 < q) by (apply sqrtW_pos);
+  set (sp := sin phi) in *; set (cp := cos phi) in *.
+
+Ltac nzs := repeat split; try (apply Rgt_not_eq; assumption); try apply PI_neq0; try lra.
+
+Ltac model_tac j :=
+  intros s roll pitch heading x;
+  destruct s as [lat lon alt VN VE VD C00 C01 C02 C10 C11 C12 C20 C21 C22];
+  destruct x as [x0 x1 x2 x3 x4 x5 x6 x7 x8];
+  unfold model0, model1, model2, model3, model4, model5, model6, model7, model8,
+         sm0, sm1, sm2, sm3, sm4, sm5, sm6, sm7, sm8;
+  cbn [e0 e1 e2 e3 e4 e5 e6 e7 e8 s_lat s_lon s_alt s_VN s_VE s_VD];
+  unfold sysmat3d_F00, sysmat3d_F01, sysmat3d_F02, sysmat3d_F03, sysmat3d_F04, sysmat3d_F05, sysmat3d_F06, sysmat3d_F07, sysmat3d_F08, sysmat3d_F10, sysmat3d_F11, sysmat3d_F12, sysmat3d_F13, sysmat3d_F14, sysmat3d_F15, sysmat3d_F16, sysmat3d_F17, sysmat3d_F18, sysmat3d_F20, sysmat3d_F21, sysmat3d_F22, sysmat3d_F23, sysmat3d_F24, sysmat3d_F25, sysmat3d_F26, sysmat3d_F27, sysmat3d_F28, sysmat3d_F30, sysmat3d_F31, sysmat3d_F32, sysmat3d_F33, sysmat3d_F34, sysmat3d_F35, sysmat3d_F36, sysmat3d_F37, sysmat3d_F38, sysmat3d_F40, sysmat3d_F41, sysmat3d_F42, sysmat3d_F43, sysmat3d_F44, sysmat3d_F45, sysmat3d_F46, sysmat3d_F47, sysmat3d_F48, sysmat3d_F50, sysmat3d_F51, sysmat3d_F52, sysmat3d_F53, sysmat3d_F54, sysmat3d_F55, sysmat3d_F56, sysmat3d_F57, sysmat3d_F58, sysmat3d_F60, sysmat3d_F61, sysmat3d_F62, sysmat3d_F63, sysmat3d_F64, sysmat3d_F65, sysmat3d_F66, sysmat3d_F67, sysmat3d_F68, sysmat3d_F70, sysmat3d_F71, sysmat3d_F72, sysmat3d_F73, sysmat3d_F74, sysmat3d_F75, sysmat3d_F76, sysmat3d_F77, sysmat3d_F78, sysmat3d_F80, sysmat3d_F81, sysmat3d_F82, sysmat3d_F83, sysmat3d_F84, sysmat3d_F85, sysmat3d_F86, sysmat3d_F87, sysmat3d_F88;
+  repeat autounfold with sysmat3d_db; to_prims; with_q lat; field; nzs.
+
+Lemma model0_spec : forall s roll pitch heading x, model0 s roll pitch heading x = sm0 s x.
+Proof. model_tac 0. Qed.
+Lemma model1_spec : forall s roll pitch heading x, model1 s roll pitch heading x = sm1 s x.
+Proof. model_tac 1. Qed.
+Lemma model2_spec : forall s roll pitch heading x, model2 s roll pitch heading x = sm2 s x.
+Proof. model_tac 2. Qed.
+Lemma model3_spec : forall s roll pitch heading x, model3 s roll pitch heading x = sm3 s x.
+Proof. model_tac 3. Qed.
+Lemma model4_spec : forall s roll pitch heading x, model4 s roll pitch heading x = sm4 s x.
+Proof. model_tac 4. Qed.
+Lemma model5_spec : forall s roll pitch heading x, model5 s roll pitch heading x = sm5 s x.
+Proof. model_tac 5. Qed.
+Lemma model6_spec : forall s roll pitch heading x, model6 s roll pitch heading x = sm6 s x.
+Proof. model_tac 6. Qed.
+Lemma model7_spec : forall s roll pitch heading x, model7 s roll pitch heading x = sm7 s x.
+Proof. model_tac 7. Qed.
+Lemma model8_spec : forall s roll pitch heading x, model8 s roll pitch heading x = sm8 s x.
+Proof. model_tac 8. Qed.
+
+(** * 7. The error dynamics: F + N is the linearisation of the hub specification in the library's coordinates *)
+
+Definition dom (s : nstate) : Prop := -90 < s_lat s < 90 /\ -1000000 <= s_alt s.
+
+Ltac zero_norm :=
+  unfold Rdiv;
+  repeat (progress rewrite ?Rmult_0_l, ?Rmult_0_r, ?Ropp_0, ?Rplus_0_r, ?Rminus_0_r, ?Rmult_1_l, ?Rplus_0_l).
+
+Ltac side_known :=
+  repeat split; trivial;
+  try (eexists; apply nav_Rn_derive); try (eexists; apply nav_Re_derive); try (eexists; apply g0_derive);
+  try (apply Rgt_not_eq; assumption);
+  try (apply Rgt_not_eq, Rmult_lt_0_compat; assumption).
+
+Ltac unf_errdyn :=
+  unfold errdyn, errdyn0, errdyn1, errdyn2, errdyn3, errdyn4, errdyn5, errdyn6, errdyn7, errdyn8;
+  cbn [e0 e1 e2 e3 e4 e5 e6 e7 e8];
+  rewrite ?model0_spec, ?model1_spec, ?model2_spec, ?model3_spec, ?model4_spec, ?model5_spec,
+          ?model6_spec, ?model7_spec, ?model8_spec;
+  unfold sm0, sm1, sm2, sm3, sm4, sm5, sm6, sm7, sm8,
+         negl0, negl1, negl2, negl3, negl4, negl5, negl6, negl7, negl8,
+         N00, N02, N10, N11, N12, N30, N36, N37, N38, N40, N47, N50, N56, N57, N58, N60, N62, N70, N72, N80, N82,
+         corN, corE, corD, omN, omE, omD, OmN, OmD, grav, rn, re, sphi, cphi, tphi;
+  cbn [e0 e1 e2 e3 e4 e5 e6 e7 e8 s_lat s_lon s_alt s_VN s_VE s_VD
+       s_C00 s_C01 s_C02 s_C10 s_C11 s_C12 s_C20 s_C21 s_C22].
+
+Ltac row_intro :=
+  intros s roll pitch heading m x [Hlat Halt];
+  destruct s as [lat lon alt VN VE VD C00 C01 C02 C10 C11 C12 C20 C21 C22];
+  destruct m as [w0 w1 w2 f0 f1 f2]; destruct x as [x0 x1 x2 x3 x4 x5 x6 x7 x8];
+  cbn [s_lat s_alt] in Hlat, Halt;
+  pose proof (rn_pos lat alt Halt) as Hrn; pose proof (re_pos lat alt Halt) as Hre;
+  pose proof (cos_d2r_pos lat Hlat) as Hc; fold d2r in Hc;
+  unf_errdyn; unf_chart;
+  set (Dlat := nav_rhs_lat lat lon alt VN VE VD C00 C01 C02 C10 C11 C12 C20 C21 C22 w0 w1 w2 f0 f1 f2);
+  set (Dlon := nav_rhs_lon lat lon alt VN VE VD C00 C01 C02 C10 C11 C12 C20 C21 C22 w0 w1 w2 f0 f1 f2);
+  set (Dalt := nav_rhs_alt lat lon alt VN VE VD C00 C01 C02 C10 C11 C12 C20 C21 C22 w0 w1 w2 f0 f1 f2);
+  set (DVN := nav_rhs_VN lat lon alt VN VE VD C00 C01 C02 C10 C11 C12 C20 C21 C22 w0 w1 w2 f0 f1 f2);
+  set (DVE := nav_rhs_VE lat lon alt VN VE VD C00 C01 C02 C10 C11 C12 C20 C21 C22 w0 w1 w2 f0 f1 f2);
+  set (DVD := nav_rhs_VD lat lon alt VN VE VD C00 C01 C02 C10 C11 C12 C20 C21 C22 w0 w1 w2 f0 f1 f2);
+  set (DC00 := nav_rhs_C00 lat lon alt VN VE VD C00 C01 C02 C10 C11 C12 C20 C21 C22 w0 w1 w2 f0 f1 f2);
+  set (DC01 := nav_rhs_C01 lat lon alt VN VE VD C00 C01 C02 C10 C11 C12 C20 C21 C22 w0 w1 w2 f0 f1 f2);
+  set (DC02 := nav_rhs_C02 lat lon alt VN VE VD C00 C01 C02 C10 C11 C12 C20 C21 C22 w0 w1 w2 f0 f1 f2);
+  set (DC10 := nav_rhs_C10 lat lon alt VN VE VD C00 C01 C02 C10 C11 C12 C20 C21 C22 w0 w1 w2 f0 f1 f2);
+  set (DC11 := nav_rhs_C11 lat lon alt VN VE VD C00 C01 C02 C10 C11 C12 C20 C21 C22 w0 w1 w2 f0 f1 f2);
+  set (DC12 := nav_rhs_C12 lat lon alt VN VE VD C00 C01 C02 C10 C11 C12 C20 C21 C22 w0 w1 w2 f0 f1 f2);
+  set (DC20 := nav_rhs_C20 lat lon alt VN VE VD C00 C01 C02 C10 C11 C12 C20 C21 C22 w0 w1 w2 f0 f1 f2);
+  set (DC21 := nav_rhs_C21 lat lon alt VN VE VD C00 C01 C02 C10 C11 C12 C20 C21 C22 w0 w1 w2 f0 f1 f2);
+  set (DC22 := nav_rhs_C22 lat lon alt VN VE VD C00 C01 C02 C10 C11 C12 C20 C21 C22 w0 w1 w2 f0 f1 f2);
+  set (dl_lat := pd_lat lat alt x0); set (dl_lon := pd_lon lat alt x1); set (dl_alt := pd_alt x2);
+  set (dl_VN := pd_v0 VN VE VD x3 x4 x5 x6 x7 x8); set (dl_VE := pd_v1 VN VE VD x3 x4 x5 x6 x7 x8);
+  set (dl_VD := pd_v2 VN VE VD x3 x4 x5 x6 x7 x8);
+  set (dl_C00 := pd_v0 C00 C10 C20 0 0 0 x6 x7 x8);
+  set (dl_C10 := pd_v1 C00 C10 C20 0 0 0 x6 x7 x8);
+  set (dl_C20 := pd_v2 C00 C10 C20 0 0 0 x6 x7 x8);
+  set (dl_C01 := pd_v0 C01 C11 C21 0 0 0 x6 x7 x8);
+  set (dl_C11 := pd_v1 C01 C11 C21 0 0 0 x6 x7 x8);
+  set (dl_C21 := pd_v2 C01 C11 C21 0 0 0 x6 x7 x8);
+  set (dl_C02 := pd_v0 C02 C12 C22 0 0 0 x6 x7 x8);
+  set (dl_C12 := pd_v1 C02 C12 C22 0 0 0 x6 x7 x8);
+  set (dl_C22 := pd_v2 C02 C12 C22 0 0 0 x6 x7 x8);
+  unf_pd; unf_nav; rewrite ?ng_split; unfold tan.
+
+Ltac row_main :=
+  zero_norm; rewrite ?D_Rn, ?D_Re, ?D_g0;
+  repeat match goal with D := _ : R |- _ => subst D end;
+  unf_pd; unf_nav; rewrite ?ng_split; unfold tan, Rdiv.
+
+Ltac row_tac lat alt :=
+  row_intro; auto_derive; [zero_norm; side_known|];
+  row_main;
+  set (Rn := nav_Rn lat) in *; set (Re := nav_Re lat) in *;
+  set (sp := sin (lat * d2r)) in *; set (cp := cos (lat * d2r)) in *;
+  set (G0 := g0 (lat * d2r)) in *; set (dG0 := dg0 (lat * d2r)) in *;
+  set (dRn := dRn_dphi lat) in *; set (dRe := dRe_dphi lat) in *;
+  unfold r2d, d2r, A_; field; nzs.
+
+Lemma row_lat : forall s roll pitch heading m x, dom s ->
+  is_derive (lin nav_rhs_lat s_lat s m x) 0 (s_lat (pdelta s (errdyn s roll pitch heading x))).
+Proof. Time row_tac lat alt. Qed.
+
+Lemma row_lon : forall s roll pitch heading m x, dom s ->
+  is_derive (lin nav_rhs_lon s_lon s m x) 0 (s_lon (pdelta s (errdyn s roll pitch heading x))).
+Proof. Time row_tac lat alt. Qed.
+
+Lemma row_alt : forall s roll pitch heading m x, dom s ->
+  is_derive (lin nav_rhs_alt s_alt s m x) 0 (s_alt (pdelta s (errdyn s roll pitch heading x))).
+Proof. Time row_tac lat alt. Qed.
+
+Lemma row_VN : forall s roll pitch heading m x, dom s ->
+  is_derive (lin nav_rhs_VN s_VN s m x) 0 (s_VN (pdelta s (errdyn s roll pitch heading x))).
+Proof. Time row_tac lat alt. Qed.
+
+Lemma row_VE : forall s roll pitch heading m x, dom s ->
+  is_derive (lin nav_rhs_VE s_VE s m x) 0 (s_VE (pdelta s (errdyn s roll pitch heading x))).
+Proof. Time row_tac lat alt. Qed.
+
+Lemma row_VD : forall s roll pitch heading m x, dom s ->
+  is_derive (lin nav_rhs_VD s_VD s m x) 0 (s_VD (pdelta s (errdyn s roll pitch heading x))).
+Proof. Time row_tac lat alt. Qed.
+
+Lemma row_C00 : forall s roll pitch heading m x, dom s ->
+  is_derive (lin nav_rhs_C00 s_C00 s m x) 0 (s_C00 (pdelta s (errdyn s roll pitch heading x))).
+Proof. Time row_tac lat alt. Qed.
+
+Lemma row_C01 : forall s roll pitch heading m x, dom s ->
+  is_derive (lin nav_rhs_C01 s_C01 s m x) 0 (s_C01 (pdelta s (errdyn s roll pitch heading x))).
+Proof. Time row_tac lat alt. Qed.
+
+Lemma row_C02 : forall s roll pitch heading m x, dom s ->
+  is_derive (lin nav_rhs_C02 s_C02 s m x) 0 (s_C02 (pdelta s (errdyn s roll pitch heading x))).
+Proof. Time row_tac lat alt. Qed.
+
+Lemma row_C10 : forall s roll pitch heading m x, dom s ->
+  is_derive (lin nav_rhs_C10 s_C10 s m x) 0 (s_C10 (pdelta s (errdyn s roll pitch heading x))).
+Proof. Time row_tac lat alt. Qed.
+
+Lemma row_C11 : forall s roll pitch heading m x, dom s ->
+  is_derive (lin nav_rhs_C11 s_C11 s m x) 0 (s_C11 (pdelta s (errdyn s roll pitch heading x))).
+Proof. Time row_tac lat alt. Qed.
+
+Lemma row_C12 : forall s roll pitch heading m x, dom s ->
+  is_derive (lin nav_rhs_C12 s_C12 s m x) 0 (s_C12 (pdelta s (errdyn s roll pitch heading x))).
+Proof. Time row_tac lat alt. Qed.
+
+Lemma row_C20 : forall s roll pitch heading m x, dom s ->
+  is_derive (lin nav_rhs_C20 s_C20 s m x) 0 (s_C20 (pdelta s (errdyn s roll pitch heading x))).
+Proof. Time row_tac lat alt. Qed.
+
+Lemma row_C21 : forall s roll pitch heading m x, dom s ->
+  is_derive (lin nav_rhs_C21 s_C21 s m x) 0 (s_C21 (pdelta s (errdyn s roll pitch heading x))).
+Proof. Time row_tac lat alt. Qed.
+
+Lemma row_C22 : forall s roll pitch heading m x, dom s ->
+  is_derive (lin nav_rhs_C22 s_C22 s m x) 0 (s_C22 (pdelta s (errdyn s roll pitch heading x))).
+Proof. Time row_tac lat alt. Qed.
